@@ -1,32 +1,54 @@
 //! Per-property checks.
 
+#[cfg(not(feature = "fuzz-min"))]
 pub mod c01_04;
+#[cfg(not(feature = "fuzz-min"))]
 pub mod c05;
+#[cfg(not(feature = "fuzz-min"))]
 pub mod c06;
+pub mod c07;
+#[cfg(not(feature = "fuzz-min"))]
 pub mod c08;
+#[cfg(not(feature = "fuzz-min"))]
 pub mod c09;
+#[cfg(not(feature = "fuzz-min"))]
 pub mod c10;
+#[cfg(not(feature = "fuzz-min"))]
 pub mod c11;
+#[cfg(not(feature = "fuzz-min"))]
 pub mod c12;
+#[cfg(not(feature = "fuzz-min"))]
 pub mod c13;
+#[cfg(not(feature = "fuzz-min"))]
 pub mod c14;
+#[cfg(not(feature = "fuzz-min"))]
 pub mod c15;
+#[cfg(not(feature = "fuzz-min"))]
 pub mod c16;
+#[cfg(not(feature = "fuzz-min"))]
 pub mod c17;
+#[cfg(not(feature = "fuzz-min"))]
 pub mod c18;
+#[cfg(not(feature = "fuzz-min"))]
 pub mod c19;
+#[cfg(not(feature = "fuzz-min"))]
 pub mod c20;
 pub mod drv;
+#[cfg(not(feature = "fuzz-min"))]
 pub mod qh;
 
+#[cfg(not(feature = "fuzz-min"))]
 use crate::runner::{Ctx, Report};
+#[cfg(not(feature = "fuzz-min"))]
 use serde_json::Value;
 
+#[cfg(not(feature = "fuzz-min"))]
 pub fn run(ctx: &Ctx) -> Option<Report> {
     Some(match ctx.id.as_str() {
         "C01" | "C02" | "C03" | "C04" => c01_04::run(ctx),
         "C05" => c05::run(ctx),
         "C06" => c06::run(ctx),
+        "C07" => c07::run(ctx),
         "C08" => c08::run(ctx),
         "C09" => c09::run(ctx),
         "C10" => c10::run(ctx),
@@ -44,11 +66,13 @@ pub fn run(ctx: &Ctx) -> Option<Report> {
     })
 }
 
+#[cfg(not(feature = "fuzz-min"))]
 pub fn replay(id: &str, engine: &str, case: &Value) -> Result<(), String> {
     match id {
         "C01" | "C02" | "C03" | "C04" => c01_04::replay(id, case),
         "C05" => c05::replay(engine, case),
         "C06" => c06::replay(case),
+        "C07" => c07::replay(engine, case),
         "C08" => c08::replay(engine, case),
         "C09" => c09::replay(engine, case),
         "C10" => c10::replay(engine, case),
